@@ -257,11 +257,19 @@ def rule_rw5(ctx):
             pats = n["pats"]
         if pats and all(q.get("p") == "Bind" for q in pats[:2]):
             pair_ids.append({pats[0]["id"], pats[1]["id"]})
+    # .. or, when the result is a struct, two of the fields it is taken apart by (the guard may read them off the struct itself)
+    struct_fields = [{f_["name"] for f_ in n.get("fields", []) if f_["pat"].get("p") == "Bind"} for n in walk(body) if n.get("p") == "Struct"]
+    struct_fields = [fs_ for fs_ in struct_fields if len(fs_) >= 2]
     for n in walk(body):
         if n.get("k") == "Binary" and n.get("op") in ("Ne", "Eq"):
             names = {local_of(n["l"]), local_of(n["r"])}
             ids = {local_id_of(n["l"]), local_id_of(n["r"])}
             if (None not in ids and ids in pair_ids) or names in ({"c1", "c2"}, {"ct1", "ct2"}):
+                guards.append(hq.render(n))
+                continue
+            l_, r_ = strip(n["l"]), strip(n["r"])
+            if l_.get("k") == "Field" and r_.get("k") == "Field" and l_["name"] != r_["name"] and local_id_of(l_["e"]) is not None and local_id_of(l_["e"]) == local_id_of(r_["e"]) \
+                    and any({l_["name"], r_["name"]} <= fs_ for fs_ in struct_fields):
                 guards.append(hq.render(n))
     pm = hq.parent_map(body)
     ctx.add("RW-5", "retain-by-value", bool(guards), ctx.site(b, rets[0]),
